@@ -18,6 +18,18 @@ def run(ctx):
     quick = ctx.tier == "quick"
     ctx.cov["rule"] = ("one pair of searches per generated position without a root promotion; non-trivial = "
                        "(pair, depth) combinations compared (every depth both searches completed).")
+    # design level: the engine's alpha-beta returns the exact minimax value at the root for every leaf assignment of
+    # small trees (spec/AlphaBeta.tla over the proved score order) - the fact that makes the committed score of a
+    # pass a function of the position, hence comparable between a position and its mirror
+    for cfg in (["AlphaBeta_quick.cfg"] if quick else ["AlphaBeta_quick.cfg", "AlphaBeta_wide.cfg", "AlphaBeta.cfg"]):
+        ra = ctx.tlc("AlphaBeta", cfg, workers=4, timeout=3000, name="alphabeta-" + cfg)
+        if ra["violated"] or ra["errors"]:
+            ctx.violation("alpha-beta-model: root value is not the minimax value", {"cfg": cfg, "tlc": (ra["violated"] + ra["errors"])[:3]},
+                          {"kind": "tlc", "module": "AlphaBeta", "cfg": cfg})
+        ctx.cov["states"] += ra["distinct"]
+        ctx.cov["transitions"] += ra["generated"]
+        ctx.cov["steps"].append({"step": "alpha-beta = minimax on abstract trees (" + cfg + ")", "trees": ra["distinct"]})
+        os.remove(ra["out_path"])
     idx = root_indices(tags=["r0", "perft", "nb"])
     if quick:
         idx = [r for k, r in enumerate(idx) if (k + ctx.seed) % 4 == 0]
